@@ -27,7 +27,7 @@ def shards(spec):
 
 # malformed / cut-off environment tokens: \begin and \end without a readable {name}, next to whole ones
 SIGMA_E = ['a', ' ', '{', '}', '$', '\\begin', '\\end', '\\begin{', '\\end {', 'itemize', '\\begin{itemize}', '\\end{itemize}',
-           '\\item', '\\begin{a$b', '\\textbf']
+           '\\item', '\\begin{a$b', '\\textbf', '\n']
 
 
 # carriage returns / CRLF line ends / tabs next to comments, macros, paragraph breaks and groups
